@@ -18,6 +18,12 @@ package batching
 //@   ensures forall(0, old(len(b.batch)), func(j int) bool { return b.batch[j] == old(b.batch[j]) })
 //@   ensures b.batchToken == old(b.batchToken)
 
+// The time-out callback runs later, on the timer's goroutine, without mu: it can only announce the
+// token it captured when the timer was armed (lock discipline: no guarded field is read here).
+//@ func EventBatcher.Add$0
+//@   property C20 C04
+//@   nosafety
+
 //@ func EventBatcher.IsFull
 //@   property C20 C04
 //@   modifies nothing
@@ -40,13 +46,13 @@ package batching
 //@   guards mu: items, nextSeqNum, drainedSeqNum
 
 //@ func ReorderBuffer.Add
-//@   property C04
+//@   property C04 C20
 //@   modifies b.items
 //@   ensures forall(func(k uint64) bool { return has(b.items, k) == (old(has(b.items, k)) || k == seq) }) && same(b.items[seq], item)
 //@   ensures forall(func(k uint64) bool { return k != seq ==> same(b.items[k], old(b.items[k])) })
 
 //@ func ReorderBuffer.Reserve
-//@   property C04
+//@   property C04 C20
 //@   nowrap
 //@   modifies b.nextSeqNum
 //@   ensures result == old(b.nextSeqNum) && b.nextSeqNum == old(b.nextSeqNum) + 1
@@ -54,7 +60,7 @@ package batching
 // Drain yields the buffered results from drainedSeqNum on, without a gap, removes them, and
 // stops at the first missing sequence number.
 //@ func ReorderBuffer.Drain
-//@   property C04
+//@   property C04 C20
 //@   nowrap
 //@   modifies b.items, b.drainedSeqNum
 //@   ensures b.drainedSeqNum == old(b.drainedSeqNum) + seqlen(result)
@@ -67,18 +73,19 @@ package batching
 //@     invariant forall(func(k uint64) bool { return has(b.items, k) == (old(has(b.items, k)) && !(old(b.drainedSeqNum) <= k && k < b.drainedSeqNum)) })
 //@     invariant forall(func(k uint64) bool { return has(b.items, k) ==> same(b.items[k], old(b.items)[k]) })
 
-// flush: taking the current batch and reserving its place in the output order is one atomic
+// flush: a sequence number is reserved only for a batch that was actually taken (a number without
+// a result would stall Drain for ever); taking the current batch and reserving its place in the output order is one atomic
 // step (flush runs on the adding goroutine and on the time-out goroutine); the batch's result
 // is stored under exactly the reserved number, after it was fetched for exactly these events.
 //@ func ReorderFetcher.flush
-//@   property C04
+//@   property C04 C20
 //@   nosafety
 //@   atcall Flush: held(d.flushMu)
-//@   atcall Reserve: held(d.flushMu)
+//@   atcall Reserve: held(d.flushMu) && len(events) > 0
 //@   order Reserve after Flush
 
 //@ func ReorderFetcher.flush$0
-//@   property C04
+//@   property C04 C20
 //@   nosafety
 //@   order Add after fetchBatch
 //@   order Drain after Add
